@@ -157,6 +157,10 @@ class ClassValue:
     def issub(self, other):
         return other in self.mro
 
+    def __call__(self, *a, **k):
+        # a class handed to a host-level summary (functools.partial, map, ...) is instantiated by the running interpreter
+        return _INTERP[0].call(self, list(a), dict(k))
+
     def __repr__(self):
         return "<class %s>" % self.name
 
